@@ -121,13 +121,47 @@ theorem encodeArea_shape (a : InfoArea) (rest : List Nat) :
         (List.replicate a.padLen 0 ++ zeroSum a.noCk :: rest)))) := by
   simp [encodeArea, InfoArea.noCk, InfoArea.body]
 
+theorem noCk_shape (a : InfoArea) :
+    a.noCk = 1 :: (a.total / 8) :: (a.pre ++ (encodeFields a.fields ++
+      (encodeFields a.custom ++ endOfFields :: List.replicate a.padLen 0))) := by
+  simp [InfoArea.noCk, InfoArea.body]
+
+theorem noCk_length (a : InfoArea) : a.noCk.length = a.total - 1 := by
+  have := encodeArea_length a
+  simp only [encodeArea, List.length_append, List.length_singleton] at this
+  omega
+
+/-- the sub-class decoder on bytes of the shape version, length, fixed bytes, fields, custom fields,
+C1h, anything -/
+theorem areaBody_shape (v : Variant) (k : InputKind) (kind : AreaKind) (a : InfoArea)
+    (b0 b1 x : Nat) (tail : List Nat) (b2 minutes : Nat)
+    (hwf_f : ∀ f ∈ a.fields, f.wf = true) (hwf_c : ∀ f ∈ a.custom, f.wf = true)
+    (hokf : ∀ f ∈ a.fields, f.okFor v k = true) (hokc : ∀ f ∈ a.custom, f.okFor v k = true)
+    (hn : a.fields.length = kind.nFields)
+    (hb2 : ∀ x tail, (1 :: x :: (a.pre ++ tail))[2]? = some b2)
+    (hfix : ∀ x tail, areaFixed kind (1 :: x :: (a.pre ++ tail)) = some (2 + a.pre.length, minutes)) :
+    areaBody v k kind b0 b1 (1 :: x :: (a.pre ++ (encodeFields a.fields ++
+      (encodeFields a.custom ++ endOfFields :: tail)))) =
+      .ok (.parsed ⟨b0 % 16, b1 * 8, b2, minutes, a.fields.map viewField, a.custom.map viewField⟩) := by
+  have hdrop : (1 :: x :: (a.pre ++ (encodeFields a.fields ++
+      (encodeFields a.custom ++ endOfFields :: tail)))).drop (2 + a.pre.length) =
+      encodeFields a.fields ++ (encodeFields a.custom ++ endOfFields :: tail) := by
+    rw [show 2 + a.pre.length = a.pre.length + 1 + 1 from by omega]
+    simp
+  have hpf := parseFields_encode v k a.fields (encodeFields a.custom ++ endOfFields :: tail) hwf_f hokf
+  have hcf := customFields_encode v k a.custom tail
+    ((encodeFields a.custom ++ endOfFields :: tail).length + 1)
+    (by have := encodeFields_length_ge a.custom; simp; omega) hwf_c hokc
+  rw [hn] at hpf
+  simp only [areaBody, hb2, hfix, hdrop, hpf, hcf, Outcome.bind_ok]
+
 theorem parseArea_encode (v : Variant) (k : InputKind) (kind : AreaKind) (a : InfoArea)
     (rest : List Nat) (b2 minutes : Nat)
     (hwf : a.wf = true)
     (hokf : ∀ f ∈ a.fields, f.okFor v k = true) (hokc : ∀ f ∈ a.custom, f.okFor v k = true)
     (hn : a.fields.length = kind.nFields)
-    (hb2 : (encodeArea a ++ rest)[2]? = some b2)
-    (hfix : areaFixed kind (encodeArea a ++ rest) = some (2 + a.pre.length, minutes)) :
+    (hb2 : ∀ x tail, (1 :: x :: (a.pre ++ tail))[2]? = some b2)
+    (hfix : ∀ x tail, areaFixed kind (1 :: x :: (a.pre ++ tail)) = some (2 + a.pre.length, minutes)) :
     parseArea v k kind (encodeArea a ++ rest) = .ok (.parsed (viewArea a b2 minutes)) := by
   simp only [InfoArea.wf, Bool.and_eq_true, List.all_eq_true] at hwf
   obtain ⟨⟨⟨_, hwf_f⟩, hwf_c⟩, _⟩ := hwf
@@ -135,27 +169,28 @@ theorem parseArea_encode (v : Variant) (k : InputKind) (kind : AreaKind) (a : In
     rw [a.total_div, ← encodeArea_length a, List.take_left']
     · exact encodeArea_sum a
     · rfl
-  have hdrop : (encodeArea a ++ rest).drop (2 + a.pre.length) =
-      encodeFields a.fields ++ (encodeFields a.custom ++ endOfFields ::
-        (List.replicate a.padLen 0 ++ zeroSum a.noCk :: rest)) := by
-    rw [encodeArea_shape]
-    rw [show 2 + a.pre.length = a.pre.length + 1 + 1 from by omega]
-    simp
   have h1 : (encodeArea a ++ rest)[1]? = some (a.total / 8) := by
     rw [encodeArea_shape]; rfl
-  have hpf := parseFields_encode v k a.fields (encodeFields a.custom ++ endOfFields ::
-        (List.replicate a.padLen 0 ++ zeroSum a.noCk :: rest)) hwf_f hokf
-  have hcf := customFields_encode v k a.custom (List.replicate a.padLen 0 ++ zeroSum a.noCk :: rest)
-    ((encodeFields a.custom ++ endOfFields ::
-        (List.replicate a.padLen 0 ++ zeroSum a.noCk :: rest)).length + 1)
-    (by have := encodeFields_length_ge a.custom; simp; omega) hwf_c hokc
-  rw [hn] at hpf
+  have hp := a.total_pos
+  -- the bytes the sub-class decodes, in both variants
+  have hdata : ∃ tail, areaData v (a.total / 8) (encodeArea a ++ rest) =
+      1 :: (a.total / 8) :: (a.pre ++ (encodeFields a.fields ++
+        (encodeFields a.custom ++ endOfFields :: tail))) := by
+    unfold areaData
+    cases v.fieldsLax with
+    | true => exact ⟨_, by rw [if_pos rfl, encodeArea_shape]⟩
+    | false =>
+      refine ⟨List.replicate a.padLen 0, ?_⟩
+      rw [if_neg (by simp), if_neg (by rw [a.total_div]; omega), a.total_div, ← noCk_length a]
+      have : encodeArea a ++ rest = a.noCk ++ ([zeroSum a.noCk] ++ rest) := by simp [encodeArea]
+      rw [this, List.take_left' rfl, noCk_shape]
+  obtain ⟨tail, hdata⟩ := hdata
+  have hbody := areaBody_shape v k kind a 1 (a.total / 8) (a.total / 8) tail b2 minutes hwf_f hwf_c hokf hokc hn hb2 hfix
   generalize hd : encodeArea a ++ rest = d at *
   have hd0 : ∃ t, d = 1 :: t := by rw [← hd, encodeArea_shape]; exact ⟨_, rfl⟩
   obtain ⟨t, ht⟩ := hd0
   subst ht
   have hlenchk : (!v.areaLenLax && (a.total / 8 * 8 == 0 || decide ((1 :: t).length < a.total / 8 * 8))) = false := by
-    have hp := a.total_pos
     have hl : a.total ≤ (1 :: t).length := by
       rw [← hd, List.length_append, encodeArea_length]; omega
     rw [a.total_div]
@@ -163,7 +198,7 @@ theorem parseArea_encode (v : Variant) (k : InputKind) (kind : AreaKind) (a : In
     have e2 : decide ((1 :: t).length < a.total) = false := by simp; omega
     rw [e1, e2]; simp
   simp only [parseArea]
-  simp only [h1, hlenchk, hsum, hb2, hfix, hdrop, hpf, hcf, Outcome.bind_ok]
+  simp only [h1, hlenchk, hsum, hdata, hbody]
   simp [viewArea, a.total_div]
 
 end PyIpmi.Fru
